@@ -1,5 +1,6 @@
 """C17  Errors carry the right class, message and source lines  (Machine.tla error delivery and traces)."""
 import random
+import re
 
 import profcheck
 import scenarios
@@ -110,6 +111,31 @@ def main(tier, seed):
     for prof in ("dev", "release"):
         ncli += cli.run_files(rep, cli.build_cli(prof), prof, usable, "error scenario")
     rep.coverage["programs_run_by_the_command_line_program"] = ncli
+    # the same programs moved far down the file: K blank lines in front shift every line of module main by K - beyond 2^15, 2^16 and 2^17
+    # (the line table of a chunk must hold any line a source file can have)
+    import copy, mrun
+    far = [r for r in usable if not r["result"]["ok"]][: (24 if tier == "quick" else 200)]
+    nfar = 0
+    for K in (32766, 65534, 65536, 131075):
+        def shift(text):
+            return re.sub(r'\[module "main", line (\d+)\]', lambda m_: '[module "main", line %d]' % (int(m_.group(1)) + K), text)
+        fcases = [{"id": i, "main": "\n" * K + yprog.program_src(r["prog"]), "gc": "never", "modules": {}, "natives": True} for i, r in enumerate(far)]
+        for bname, binary in bins:
+            for r, reply in zip(far, Pool(binary, "run", timeout=60).map(fcases)):
+                nfar += 1
+                model = copy.deepcopy(r)
+                model["result"]["messages"] = [shift(x) for x in model["result"]["messages"]]
+                model["out"] = [shift(x) if isinstance(x, str) else x for x in model["out"]]
+                msg = mrun.compare(model, reply) if hasattr(mrun, "compare") else None
+                if msg:
+                    rep.violation("error scenario moved %d lines down the file (%s build): %s" % (K, bname, msg),
+                                  {"source": "<%d blank lines>\n%s" % (K, yprog.program_src(r["prog"])), "spec": model["result"], "impl": reply})
+    rep.coverage["error_scenarios_replayed_far_down_the_file"] = nfar
+    # line counting itself: Scanner.tla's token lines (comments, line breaks inside strings, the end-of-input token after a final comment
+    # without a line break) against the real scanner, for every source of the Broad alphabet
+    from checks import c03 as _c03
+    nscan, sscan = _c03.scanner_part(rep, bins[0][1], tier, groups=["Broad"])
+    rep.coverage["scanner_sources_for_line_counting"] = nscan
     # compile errors name the line of the offending token
     cases = compile_error_cases(rng, 600 if tier == "quick" else 6000)
     ncomp = 0
